@@ -1,11 +1,12 @@
 #!/bin/bash
 # Runs the repository's pinned baseline (guard OFF: no --cfg kahflane_turdb_verif) and checks
 # that every test in BASELINE.json's stable_pass list passes. exit 0 iff all pass.
-cd /repo || exit 2
+R=${BASELINE_REPO:-/repo}
+cd "$R" || exit 2
 unset RUSTFLAGS
 export CARGO_NET_OFFLINE=true RUST_BACKTRACE=0
 cargo nextest run --workspace --no-fail-fast --tool-config-file pb:/verif/tools/nextest.toml --profile pb --test-threads 8 --offline >/tmp/baseline.$$.log 2>&1
-J=/repo/target/nextest/pb/junit.xml
+J=${CARGO_TARGET_DIR:-$R/target}/nextest/pb/junit.xml
 python3 - "$J" <<'PY'
 import json, sys, xml.etree.ElementTree as ET
 base = json.load(open('/root/.vp/BASELINE.json'))
